@@ -254,6 +254,7 @@ func c09NewWorld(tb c09TB, o c09WorldOpts) *c09World {
 	fp := DefaultServerParameters()
 	fp.WithNetworkID(c09NetworkID)
 	fp.ReadTimeout = c09FastReadTimeout
+	fp.WriteTimeout = c09FastReadTimeout
 	w.fast, err = NewServer(fp, fastHost, w.cs)
 	if err != nil {
 		tb.Fatalf("VERIF-INFRA: server: %v", err)
@@ -372,6 +373,7 @@ type c09Req struct {
 	raw   []byte // bytes put on the wire when via == raw
 	split int    // raw: first write carries raw[:split]
 	hold  bool   // raw: keep the write side open (sent to the short-read-timeout server)
+	stall bool   // raw: after sending the request the peer never reads the answer (short-write-timeout server)
 	abort bool   // raw: reset the stream right after writing, without reading the answer
 	fault string // "", service, reserve, size, lookup
 	how   string // how the request was derived
@@ -380,7 +382,7 @@ type c09Req struct {
 func (r *c09Req) desc() string {
 	s := fmt.Sprintf("%s/%s/%s %s", r.class, c09KindName[r.kind], r.via, r.how)
 	if r.via == "raw" {
-		s += fmt.Sprintf(" bytes=%x split=%d hold=%v abort=%v", r.raw, r.split, r.hold, r.abort)
+		s += fmt.Sprintf(" bytes=%x split=%d hold=%v abort=%v stall=%v", r.raw, r.split, r.hold, r.abort, r.stall)
 	} else {
 		s += " " + r.f.desc(r.kind)
 	}
@@ -502,6 +504,7 @@ func (w *c09World) do(tb c09TB, rq *c09Req, id request) c09Result {
 	touched0, dbl0, pan0 := w.cs.touched.Load(), w.cs.dblClose.Load(), w.cs.panicked.Load()
 	w.net.mu.Lock()
 	w.net.nextFailService, w.net.nextFailReserve = rq.fault == "service", rq.fault == "reserve"
+	w.net.nextSmallWindow = rq.stall
 	w.net.mu.Unlock()
 	w.cs.mu.Lock()
 	w.cs.failSize, w.cs.failLookup = rq.fault == "size", nil
@@ -511,7 +514,7 @@ func (w *c09World) do(tb c09TB, rq *c09Req, id request) c09Result {
 	w.cs.mu.Unlock()
 
 	target := w.srvPeer
-	if rq.hold {
+	if rq.hold || rq.stall {
 		target = w.fastPeer
 	}
 	ctx, cancel := context.WithTimeout(context.Background(), c09CaseDeadline)
@@ -646,6 +649,20 @@ func (w *c09World) sendRaw(ctx context.Context, rq *c09Req, target peer.ID) (res
 	}
 	if !rq.hold {
 		_ = s.CloseWrite()
+	}
+	if rq.stall {
+		// never read: the server must give up on its own (write deadline) and release everything
+		w.net.mu.Lock()
+		x := w.net.last
+		w.net.mu.Unlock()
+		if x != nil {
+			select {
+			case <-x.done:
+			case <-ctx.Done():
+			}
+		}
+		res.status = "stalled"
+		return res
 	}
 	var st shrexpb.Response
 	if _, err := serde.Read(s, &st); err != nil {
@@ -871,6 +888,13 @@ func (w *c09World) run(tb c09TB, rq *c09Req) {
 	if rq.abort {
 		// the client walked away: nothing to judge about the answer, I3-I5 were checked by do
 		vk.Record(w.desc+" || "+rq.desc(), append([]string{"class=" + rq.class, "abort=1",
+			"kind=" + c09KindName[rq.kind]}, w.labels...), res.reached, nil)
+		return
+	}
+	if rq.stall {
+		// the peer never read the answer: nothing to judge about it; I3 (the handler returned on its
+		// own), I4 and I5 were checked by do
+		vk.Record(w.desc+" || "+rq.desc(), append([]string{"class=" + rq.class, "stall=1",
 			"kind=" + c09KindName[rq.kind]}, w.labels...), res.reached, nil)
 		return
 	}
@@ -1304,6 +1328,8 @@ func (w *c09World) genRaw(t *rapid.T) *c09Req {
 		rq.hold = true
 	case 1:
 		rq.abort = true
+	case 2:
+		rq.stall = true
 	}
 	return rq
 }
@@ -1423,6 +1449,14 @@ func TestVerifC09_SmallExhaustive(t *testing.T) {
 			for _, fault := range []string{"service", "reserve", "size", "lookup"} {
 				w.run(t, &c09Req{class: "fault", kind: kind, f: f, how: "fault", via: "client", fault: fault})
 			}
+		}
+		// a peer that sends a valid request and never reads the answer (whole square and a row: the
+		// answers exceed the 1 KiB the peer lets the server have in flight): the handler must return
+		// on its own and release the accessor and the reserved memory
+		for _, kind := range []int{c09EDS, c09Row} {
+			f := c09Fields{height: h}
+			w.run(t, &c09Req{class: "raw", kind: kind, how: "valid-then-stall", via: "raw", raw: c09Encode(kind, f), stall: true,
+				split: 0})
 		}
 		vk.Count("exhaustive_squares", 1)
 	})
